@@ -314,15 +314,29 @@ func cmdCheck(argv []string) int {
 		nObl++
 		if fr.ok {
 			nDis++
+			if kf := matchKnown(known, id, name); kf != nil && kf.Status == "known" {
+				fmt.Printf("NOTE: known finding no longer present: property=%s %s\n", id, name)
+			}
 		} else {
 			result = "fails"
 			reason := fr.path
 			if fr.err != "" {
 				reason = fr.err
 			}
-			p := writeReplay(name, map[string]interface{}{"property": id, "obligation": name, "kind": "flow", "function": fc.Func, "what": fc.What, "reason": reason,
-				"note": "a control-flow path of the real function violates the discipline; there is no input-level replay for a path obligation"})
-			viols = append(viols, violation{name, fc.What + ": " + reason, p, false})
+			kf := matchKnown(known, id, name)
+			if kf != nil && kf.Status == "known" && fr.err == "" && kf.Signature == fmt.Sprintf("sites=%d", fr.sites) {
+				// a listed finding, at exactly the listed number of sites of this function
+				knownLines = append(knownLines, fmt.Sprintf("KNOWN-FINDING: property=%s %s: %s", id, name, kf.What))
+				result = "known-finding"
+				nObl--
+			} else {
+				if kf != nil && kf.Status == "known" {
+					reason = fmt.Sprintf("not the listed finding (listed %s, found sites=%d): %s", kf.Signature, fr.sites, reason)
+				}
+				p := writeReplay(name, map[string]interface{}{"property": id, "obligation": name, "kind": "flow", "function": fc.Func, "what": fc.What, "reason": reason,
+					"note": "a control-flow path of the real function violates the discipline; there is no input-level replay for a path obligation"})
+				viols = append(viols, violation{name, fc.What + ": " + reason, p, false})
+			}
 		}
 		all = append(all, EvObl{name, "flow", shortName(fc.Func), "", "frame", result, time.Since(t0).Milliseconds()})
 	}
